@@ -3,6 +3,7 @@ package pts
 import (
 	"bufio"
 	"errors"
+	"fmt"
 	"io"
 	"strconv"
 	"strings"
@@ -87,6 +88,10 @@ func ReadPointCloud(in io.Reader) (*modeling.Mesh, error) {
 
 	if scanner.Err() != nil {
 		return nil, scanner.Err()
+	}
+
+	if curLine < parsedCount {
+		return nil, fmt.Errorf("pts file ended after %d of %d points: %w", curLine, parsedCount, io.ErrUnexpectedEOF)
 	}
 
 	v3Data := make(map[string][]vector3.Float64)
